@@ -360,6 +360,62 @@ func helperClosure(p *core.Program, fn *core.FuncRef) []*core.FuncRef {
 	return out
 }
 
+// singleDef: the expression a local variable is defined by, when it is assigned exactly once under root (its
+// definition) and its address is never taken — such a variable is a name for that expression's value.
+func singleDef(info *types.Info, root ast.Node, obj types.Object) ast.Expr {
+	var rhs ast.Expr
+	n := 0
+	ast.Inspect(root, func(m ast.Node) bool {
+		switch x := m.(type) {
+		case *ast.AssignStmt:
+			for i, l := range x.Lhs {
+				if id, ok := l.(*ast.Ident); ok && (info.Defs[id] == obj || info.Uses[id] == obj) {
+					n++
+					if len(x.Lhs) == len(x.Rhs) && x.Tok == token.DEFINE {
+						rhs = x.Rhs[i]
+					} else {
+						n++
+					}
+				}
+			}
+		case *ast.ValueSpec:
+			for i, id := range x.Names {
+				if info.Defs[id] == obj {
+					n++
+					if len(x.Values) == len(x.Names) {
+						rhs = x.Values[i]
+					}
+				}
+			}
+		case *ast.IncDecStmt:
+			if id, ok := x.X.(*ast.Ident); ok && info.Uses[id] == obj {
+				n += 2
+			}
+		case *ast.UnaryExpr:
+			if id, ok := core.Unparen(x.X).(*ast.Ident); ok && x.Op == token.AND && info.Uses[id] == obj {
+				n += 2
+			}
+		case *ast.RangeStmt:
+			for _, e := range []ast.Expr{x.Key, x.Value} {
+				if id, ok := e.(*ast.Ident); ok && (info.Defs[id] == obj || info.Uses[id] == obj) {
+					n += 2
+				}
+			}
+		}
+		return true
+	})
+	if n == 1 {
+		return rhs
+	}
+	return nil
+}
+
+func inspectAll(nodes []ast.Node, f func(ast.Node) bool) {
+	for _, n := range nodes {
+		ast.Inspect(n, f)
+	}
+}
+
 // bodyClosure: a body (of a function literal, say) followed by the bodies of the unexported helpers of package
 // pkgPath it reaches through static calls. For AST rules over function literals — the counterpart of helperClosure.
 func bodyClosure(p *core.Program, pkgPath string, info *types.Info, body ast.Node) []ast.Node {
